@@ -93,6 +93,10 @@ def skeletons(b1, b2):
     lp = lp + inner + [("add", [R(0), R(0), R(5)]), ("jmp", [len(head)])]
     lp[len(head)] = ("beq", [R(0), R(1), len(lp)])
     out["if-in-loop"] = lp + b2
+    # a loop whose label is the very first instruction (do-while: the body runs, then a backward branch to line 0); R8 = 0
+    # and R9 = 2 come from the initial state
+    out["loop-from-line-0"] = b1 + [("add", [R(8), R(8), R(5)]), ("blt", [R(8), R(9), 0])] + b2
+    out["jmp-to-line-0"] = [("bnz", [R(8), 3 + len(b1)])] + b1 + [("add", [R(8), R(8), R(5)]), ("jmp", [0])] + b2
     # measurement, then a block conditioned on the outcome
     p = [("set", [Q(0), 2]), ("meas", [Q(0), M(0)]), ("bez", [M(0), 0])] + b1
     p[2] = ("bez", [M(0), len(p)])
@@ -104,6 +108,8 @@ def initial(kind: str, alloc=(0, 1, 2)) -> Tuple[refvm.RefState, refvm.QModel]:
     s = refvm.RefState(unit_size=6)
     s.regs[("R", 5)] = 1
     s.regs[("R", 3)] = 10
+    s.regs[("R", 8)] = 0
+    s.regs[("R", 9)] = 2
     s.arrays = {0: [0, 1, 2]}
     qm = refvm.QModel()
     for v in alloc:
@@ -221,7 +227,7 @@ def run_both(prog, wire, init_kind, alloc, case, part, fam) -> None:
         s, qm = initial(init_kind, alloc)
         qm.outcome = script.outcome
         vm = refvm.RefVM(program, s, qmodel=qm)
-        st = vm.run(max_steps=400)
+        st = vm.run(max_steps=max(400, 2 * len(program) + 50))     # (straight-line programs longer than the loop bound)
         return vm, st
 
     def explore(ch):
@@ -411,12 +417,26 @@ def shard_regs(sh):
     return part
 
 
+def shard_many(sh):
+    """k carbon-carbon gates written out in one subroutine, k up to 24: whatever the transpiler reserves per gate (scratch
+    registers, bookkeeping) must be given back, a long valid program must transpile like a short one"""
+    part = new_part()
+    for k in (2, 5, 14, 15, 16, 17, 24):
+        prog = []
+        for i in range(k):
+            a, b = ((1, 2), (2, 1), (2, 3))[i % 3]
+            prog += [("set", [Q(0), a]), ("set", [Q(1), b]), (TWOS[i % 2], [Q(0), Q(1)])]
+        check_program("many-carbon-carbon-gates", prog, "set", part, alloc=(0, 1, 2, 3), inits=("product",))
+        count(part, "skeleton/many-carbon-carbon-gates")
+    return part
+
+
 def _dispatch(sh):
-    return {"s": shard, "mov": shard_mov, "corpus": shard_corpus, "regs": shard_regs}[sh[0]](sh)
+    return {"many": shard_many, "s": shard, "mov": shard_mov, "corpus": shard_corpus, "regs": shard_regs}[sh[0]](sh)
 
 
 def run(ctx):
-    shards: List[Any] = [("mov",)] + [("corpus", i, 24) for i in range(24)]
+    shards: List[Any] = [("mov",), ("many",)] + [("corpus", i, 24) for i in range(24)]
     for src in ("set", "load"):
         for idx in range(len(groups(src, False))):
             shards.append(("s", src, idx, ctx.tier))
@@ -426,6 +446,8 @@ def run(ctx):
     ctx.require("skeleton/other-registers", 36 * 8 * 3)
     ctx.require("skeleton/live-third-register", 36 * 8)
     ctx.require("skeleton/live-loaded-register", 36 * 2)
+    for sk in ("loop-from-line-0", "jmp-to-line-0", "many-carbon-carbon-gates"):
+        ctx.require(f"skeleton/{sk}", 1)
     for sk in ("straight", "if-skipped", "if-taken", "loop2", "loop2-exit-at-end", "branch-to-end", "if-in-loop", "measure-then-if", "mov"):
         ctx.require(f"skeleton/{sk}", 1)
     for g in ("h", "x", "t", "rot_y", "cnot", "cphase"):
@@ -441,6 +463,9 @@ def replay(case, part):
         return o
     prog = [(mn, [fix(o) for o in ops]) for mn, ops in case["program"]]
     alloc = (0, 1, 2)
+    if case["skeleton"] == "many-carbon-carbon-gates":
+        check_program(case["skeleton"], prog, "set", part, alloc=(0, 1, 2, 3), inits=("product",))
+        return
     if case["skeleton"].startswith("regs-"):
         check_program(case["skeleton"], prog, case["register_source"], part, alloc=(0, 1, 2, 3), inits=("product", "entangled"))
         return
